@@ -428,9 +428,15 @@ pub struct BInterp<'a> {
 }
 
 fn viol(v: &mut Vec<BViol>, prop: &'static str, oracle: &'static str, detail: String, step: usize) {
-    if !v.iter().any(|x| x.prop == prop) {
-        v.push(BViol { prop, oracle, detail, step, soft: false });
+    if let Some(x) = v.iter_mut().find(|x| x.prop == prop) {
+        // a second, different complaint about a property whose first one was soft: model and tree may no longer agree,
+        // the case ends here
+        if x.soft && !matches!(oracle, "has_remaining" | "chunk-empty-but-bytes-remain" | "remaining-over-reported") {
+            x.soft = false;
+        }
+        return;
     }
+    v.push(BViol { prop, oracle, detail, step, soft: false });
 }
 
 macro_rules! btr {
@@ -534,7 +540,9 @@ impl<'a> BInterp<'a> {
             self.dg ^= h;
             self.dg = self.dg.wrapping_mul(0x100000001b3);
         }
-        if rem != mrem {
+        if rem > mrem {
+            bad.push(("C09", "remaining-over-reported", format!("remaining()={} but {} bytes are left in the sequence", rem, mrem)));
+        } else if rem != mrem {
             bad.push(("C09", "remaining", format!("remaining()={} but {} bytes are left in the sequence", rem, mrem)));
         }
         if root.has_remaining() != (mrem > 0) {
@@ -546,12 +554,16 @@ impl<'a> BInterp<'a> {
         } else if ch.is_empty() && !rest.is_empty() {
             bad.push(("C09", "chunk-empty-but-bytes-remain", format!("chunk() is empty, {} bytes remain", rest.len())));
         }
-        // structural walk (C12)
-        self.st.struct_walks += 1;
-        let mut path = String::new();
-        walk_struct(root, &self.model, &mut path, &mut bad, self.st, &mut self.flags);
+        // structural walk (C12) - not while remaining() over-reports: the walk would only repeat that fact node by node
+        if !bad.iter().any(|b| b.1 == "remaining-over-reported") {
+            self.st.struct_walks += 1;
+            let mut path = String::new();
+            walk_struct(root, &self.model, &mut path, &mut bad, self.st, &mut self.flags);
+        }
         for (p, o, d) in bad {
-            let soft = matches!(o, "has_remaining" | "chunk-empty-but-bytes-remain");
+            // an over-reporting remaining() is soft as well: the position still agrees, and what the typed reads do with
+            // such a buffer is C10's business (under-reporting and every other mismatch end the case)
+            let soft = matches!(o, "has_remaining" | "chunk-empty-but-bytes-remain" | "remaining-over-reported");
             let n = self.viols.len();
             self.v(p, o, d);
             if soft && self.viols.len() > n {
@@ -576,7 +588,7 @@ impl<'a> BInterp<'a> {
         // chunk() empty although bytes remain (already recorded by observe() as a C09 observation): everything built on the
         // provided copy loop `while !dst.is_empty() { chunk(); advance(..) }` would spin for ever, so only operations that do
         // not loop are still executed - they show what the same state does to the one-byte typed reads (C10)
-        if rem > 0 && self.viols.iter().any(|v| v.soft) {
+        if self.viols.iter().any(|v| v.soft) {
             let one_byte_read = matches!(code, 6 | 7) && GETTERS[(a as usize) % GETTERS.len()].size == 1;
             if !(one_byte_read || matches!(code, 0 | 1 | 8 | 9 | 10 | 16 | 17)) {
                 return;
